@@ -176,12 +176,37 @@ type Worker struct {
 }
 
 func (w *Worker) Tick(desc func() string) {
+	if traceW != nil {
+		// VERIF_TRACE=<path>: every case is written out before it runs, so that a
+		// crash the runtime cannot recover from (stack overflow, out of memory) can
+		// be attributed by the driver: the culprit is among the last lines
+		s := desc()
+		id := -1
+		if w != nil {
+			id = w.ID
+		}
+		traceMu.Lock()
+		fmt.Fprintf(traceW, "%d\t%s\n", id, s)
+		traceMu.Unlock()
+	}
 	if w == nil {
 		return
 	}
 	w.cur.Store(desc)
 	atomic.AddInt64(&w.n, 1)
 }
+
+var (
+	traceMu sync.Mutex
+	traceW  = func() *os.File {
+		if p := os.Getenv("VERIF_TRACE"); p != "" {
+			if f, err := os.OpenFile(p, os.O_CREATE|os.O_WRONLY|os.O_APPEND, 0o644); err == nil {
+				return f
+			}
+		}
+		return nil
+	}()
+)
 
 var (
 	workersMu sync.Mutex
@@ -303,4 +328,35 @@ func J(v interface{}) json.RawMessage {
 		panic(err)
 	}
 	return b
+}
+
+// ExportStates writes the state-key set (for merging across worker processes).
+func (c *Ctx) ExportStates(path string) {
+	f, err := os.Create(path)
+	if err != nil {
+		return
+	}
+	defer f.Close()
+	for i := range c.states {
+		for k := range c.states[i].m {
+			f.Write(k[:])
+		}
+	}
+}
+
+// ImportStates merges a state-key file written by ExportStates.
+func (c *Ctx) ImportStates(path string) {
+	b, err := os.ReadFile(path)
+	if err != nil {
+		return
+	}
+	for i := 0; i+16 <= len(b); i += 16 {
+		var k [16]byte
+		copy(k[:], b[i:i+16])
+		s := &c.states[int(k[0])%len(c.states)]
+		if _, ok := s.m[k]; !ok {
+			s.m[k] = struct{}{}
+			c.nstates++
+		}
+	}
 }
